@@ -24,6 +24,7 @@ fn replay(file: &str) -> ! {
         "handover" => replay_with(&c13::scenario(tier).0, &v),
         "miner-life/c15-rich" => replay_with(&c15::scenario_regime(tier, false).0, &v),
         "miner-life/c15-poor" => replay_with(&c15::scenario_regime(tier, true).0, &v),
+        "miner-life/c15-pledge-only" => replay_with(&c15::scenario_big(tier).0, &v),
         "vesting-component" => replay_with(&c14::scenario_component(tier), &v),
         "withdrawals" => replay_with(&c14::scenario_actor(tier), &v),
         "power-only" => replay_with(&c02::poweronly::PowerOnly { miners: 5 }, &v),
